@@ -64,6 +64,7 @@ func (c *countingEffect) Exec() error { c.n++; return nil }
 
 // cbWorld is one breaker under simulation together with everything observed.
 type cbWorld struct {
+	handler          http.Handler // the protected handler (for re-wrapping)
 	r                *simkit.Run
 	cfg              cbConfig
 	sim              *simrt.Sim
@@ -158,6 +159,7 @@ func newWorld(r *simkit.Run, cfg cbConfig) *cbWorld {
 		r.T.Fatalf("cbreaker.New(%q): %v", cfg.expr, err)
 	}
 	w.cb = cb
+	w.handler = handler
 	w.stepTime = []time.Duration{0}
 	w.obs = []string{w.observe()}
 	w.sim.AfterStep = func(t *simrt.Task) {
